@@ -40,8 +40,9 @@
                                 v := cur; keep := predicate(contents); break }
                    else { keep := true; break } }
             if keep && CAS cell[n] o -> EMPTY (Relaxed/Relaxed) ok {
-               element_generation_counter_ptr.as_ptr()      load DIST[0]
-               CAS gen[n] v -> v+1 (Relaxed/Relaxed), result ignored
+               if v odd {                                   (v even: the owner died inside add before publishing)
+                 element_generation_counter_ptr.as_ptr()    load DIST[0]
+                 CAS gen[n] v -> v+1 (Relaxed/Relaxed), result ignored }
                if increment_generation_counter(Release) == MAX { result := Locked; goto end } } }
           result := igen.load(Relaxed) == MAX }
         end: change.fetch_add(1, Release); return result
@@ -419,7 +420,8 @@ Definition step_acc (t : nat) (g : cgst) (l : clst) : option (cgst * clst * list
   | RecCasCell n v acc p =>
     let e := cas_ev 18 B_CELL n Relaxed Relaxed (cells g n) me EMPTY in
     if N.eqb (cells g n) me
-    then Some (set_settled (set_cells g (fupd (cells g) n EMPTY)) n false, set_pc l (RecSDist0 n v acc p), [e])
+    then Some (set_settled (set_cells g (fupd (cells g) n EMPTY)) n false,
+               set_pc l (if odd v then RecSDist0 n v acc p else IncLoad (KRec n acc p)), [e])
     else Some (g, set_pc l (rec_next g (n + 1) acc p), [e])
   | RecSDist0 n v acc p => Some (g, set_pc l (RecCasGen n v acc p), [dist_ev g 0])
   | RecCasGen n v acc p =>
@@ -485,7 +487,9 @@ Definition init (c d0 d1 d2 : N) (progs : nat -> list cop) : cfg cgst clst :=
 (* final observation: what a fresh reader lists, and the number of owned indices *)
 Fixpoint count_owned (g : cgst) (k : nat) (i : N) : N :=
   match k with O => 0 | S k' => (if N.eqb (cells g i) EMPTY then 0 else 1) + count_owned g k' (i + 1) end.
-Definition final_obs (g : cgst) : N * N := (snap_code (cap g) (gens g) (datas g), count_owned g (N.to_nat (cap g)) 0).
+(* get_state() = update_state on a zeroed state: returns at once while the change counter is 0 *)
+Definition final_obs (g : cgst) : N * N :=
+  (if N.eqb (change g) 0 then 0 else snap_code (cap g) (gens g) (datas g), count_owned g (N.to_nat (cap g)) 0).
 
 (* programs without abandoned calls *)
 Definition crash_free_op (o : cop) : bool :=
